@@ -281,6 +281,10 @@ func runOracleVotes(r *hx.R, n int, w *hx.W, _ []string) error {
 			case c < 2: // delegate feeder
 				val := pickVal()
 				d := feeders[r.Pick(len(feeders))]
+				if r.Chance(1, 3) {
+					d = sdk.AccAddress(val) // take the feeder rights back: delegate to the operator's own account
+				}
+				former := k.FeederDelegations.GetOr(ctx, val, sdk.AccAddress(val))
 				res := hx.Recover(func() string {
 					_, err := ms.DelegateFeedConsent(ctx, &oracletypes.MsgDelegateFeedConsent{Operator: val.String(), Delegate: d.String()})
 					cls := oracleErrClass(err)
@@ -291,6 +295,10 @@ func runOracleVotes(r *hx.R, n int, w *hx.W, _ []string) error {
 				})
 				w.Count("delegate:" + strings.SplitN(res, " ", 2)[0])
 				w.Step(fmt.Sprintf("ovote delegate %s %s", hex.EncodeToString(val), hex.EncodeToString(d)), res)
+				if strings.HasPrefix(res, "ok") && !former.Equals(d) && !former.Equals(sdk.AccAddress(val)) && r.Chance(2, 3) {
+					// the feeder that has just been replaced tries to keep acting for the validator
+					doPrevote(val, former, newPlan(val), 9)
+				}
 			case c < 5: // prevote
 				val := pickVal()
 				doPrevote(val, pickFeeder(val), newPlan(val), r.Pick(10))
